@@ -98,6 +98,9 @@ NoOp           == (pc = "ret" /\ ~IsReal) => (ret = "none" /\ wrote = 0)
 QueryReturnsText == (pc = "ret" /\ IsQuery) => resp.typ = "str"
 ReturnsOwnLine == (pc = "ret" /\ IsQuery /\ Conforming) => ret = DataTok(N, Plan.blank)
 Aligned        == (pc = "ret" /\ Conforming) => rxq = <<>>
+\* the data line arrived, then the read of the trailing OK raised: the data line is still this request's answer
+DataThenFault == (pc = "ret" /\ IsQuery /\ Plan.fault = "rNraise" /\ Plan.d1 <= R /\ \A k \in 1..(N - 1) : PlanConforming(hist[k], R))
+                    => ret = DataTok(N, Plan.blank)
 \* "or an empty string when nothing arrived"
 EmptyWhenSilent == (pc = "ret" /\ IsQuery /\ Plan.fault \in {"silent", "wraise", "r1raise"} /\ rxq = <<>>
                     /\ \A k \in 1..(N - 1) : PlanConforming(hist[k], R)) => ret = Empty
